@@ -5,6 +5,7 @@ import (
 	"encoding/json"
 	"errors"
 	"fmt"
+	"math"
 	"strconv"
 	"time"
 
@@ -71,7 +72,7 @@ func jwtAttributes(m map[string]any) []Attribute {
 	var attrs []Attribute
 	for _, param := range jwtParams {
 		if v, ok := m[param.name]; ok {
-			if value := param.convert(v); value != "" {
+			if value, ok := param.convert(v); ok {
 				attrs = append(attrs, Attribute{Name: param.description, Value: value})
 			}
 		}
@@ -82,7 +83,7 @@ func jwtAttributes(m map[string]any) []Attribute {
 type jwtParam struct {
 	name        string
 	description string
-	convert     func(any) string
+	convert     func(any) (string, bool)
 }
 
 var jwtParams = []jwtParam{
@@ -107,58 +108,72 @@ var jwtParams = []jwtParam{
 	{"sub", "Subject", str},
 }
 
-func sigAlg(o any) string {
+func sigAlg(o any) (string, bool) {
 	if s, ok := o.(string); ok {
 		switch s {
 		case "HS256":
-			return names.HMAC + " using " + names.SHA256 + " (HS256)"
+			return names.HMAC + " using " + names.SHA256 + " (HS256)", true
 		case "HS384":
-			return names.HMAC + " using " + names.SHA384 + " (HS384)"
+			return names.HMAC + " using " + names.SHA384 + " (HS384)", true
 		case "HS512":
-			return names.HMAC + " using " + names.SHA512 + " (HS512)"
+			return names.HMAC + " using " + names.SHA512 + " (HS512)", true
 		case "RS256":
-			return names.RSA_PKCS15 + " with " + names.SHA256 + " (RS256)"
+			return names.RSA_PKCS15 + " with " + names.SHA256 + " (RS256)", true
 		case "RS384":
-			return names.RSA_PKCS15 + " with " + names.SHA384 + " (RS384)"
+			return names.RSA_PKCS15 + " with " + names.SHA384 + " (RS384)", true
 		case "RS512":
-			return names.RSA_PKCS15 + " with " + names.SHA512 + " (RS512)"
+			return names.RSA_PKCS15 + " with " + names.SHA512 + " (RS512)", true
 		case "ES256":
-			return names.ECDSA + " using " + names.Secp256r1 + " and " + names.SHA256 + " (ES256)"
+			return names.ECDSA + " using " + names.Secp256r1 + " and " + names.SHA256 + " (ES256)", true
 		case "ES384":
-			return names.ECDSA + " using " + names.Secp384r1 + " and " + names.SHA384 + " (ES384)"
+			return names.ECDSA + " using " + names.Secp384r1 + " and " + names.SHA384 + " (ES384)", true
 		case "ES512":
-			return names.ECDSA + " using " + names.Secp521r1 + " and " + names.SHA512 + " (ES512)"
+			return names.ECDSA + " using " + names.Secp521r1 + " and " + names.SHA512 + " (ES512)", true
 		case "PS256":
-			return names.RSA_PSS + " using " + names.SHA256 + " and " + names.MGF1 + " with " + names.SHA256 + " (PS256)"
+			return names.RSA_PSS + " using " + names.SHA256 + " and " + names.MGF1 + " with " + names.SHA256 + " (PS256)", true
 		case "PS384":
-			return names.RSA_PSS + " using " + names.SHA384 + " and " + names.MGF1 + " with " + names.SHA384 + " (PS384)"
+			return names.RSA_PSS + " using " + names.SHA384 + " and " + names.MGF1 + " with " + names.SHA384 + " (PS384)", true
 		case "PS512":
-			return names.RSA_PSS + " using " + names.SHA512 + " and " + names.MGF1 + " with " + names.SHA512 + " (PS512)"
+			return names.RSA_PSS + " using " + names.SHA512 + " and " + names.MGF1 + " with " + names.SHA512 + " (PS512)", true
 		default:
-			return s
+			return s, true
 		}
 	}
-	return ""
+	return "", false
 }
 
-func str(o any) string {
-	if o == nil {
-		return ""
-	}
-	if s, ok := o.(string); ok {
-		return s
-	}
-	return ""
+func str(o any) (string, bool) {
+	s, ok := o.(string)
+	return s, ok
 }
 
-func unixTime(o any) string {
-	if o == nil {
-		return ""
-	}
-	if s, ok := o.(string); ok {
-		if i, err := strconv.Atoi(s); err == nil {
-			return time.Unix(int64(i), 0).UTC().Format("2006-01-02 15:04:05")
+// The instants that time.Format renders with a four-digit year, in Unix seconds.
+const (
+	minNumericDate = -62135596800 // 0001-01-01 00:00:00 UTC
+	maxNumericDate = 253402300799 // 9999-12-31 23:59:59 UTC
+)
+
+// unixTime renders a NumericDate (RFC 7519 section 2: a JSON number of seconds since the
+// epoch, possibly with a fraction) as the UTC second it falls in. A string holding a decimal
+// integer is read the same way; any other string is shown as it is.
+func unixTime(o any) (string, bool) {
+	switch v := o.(type) {
+	case float64:
+		return numericDate(math.Floor(v))
+	case string:
+		if i, err := strconv.ParseInt(v, 10, 64); err == nil {
+			if t, ok := numericDate(float64(i)); ok {
+				return t, true
+			}
 		}
+		return v, true
 	}
-	return ""
+	return "", false
+}
+
+func numericDate(sec float64) (string, bool) {
+	if sec < minNumericDate || sec > maxNumericDate {
+		return "", false
+	}
+	return time.Unix(int64(sec), 0).UTC().Format("2006-01-02 15:04:05"), true
 }
